@@ -122,8 +122,10 @@ func checkTyped(tc TypedCase) vrep.Result {
 		return vrep.Fail("harness: the item could not be opened: %s", vui.Identify(cur))
 	}
 	targets := map[int]string{}
+	asShown := map[int]bool{}
 	for _, l := range c.Doc.Links {
 		targets[l.ID] = l.Target
+		asShown[l.ID] = l.AsShown
 	}
 	for _, a := range c.Atts {
 		targets[a.ID] = vgen.Target(a.ID)
@@ -169,6 +171,12 @@ func checkTyped(tc TypedCase) vrep.Result {
 			return vrep.Result{Classes: classes, Err: fmt.Errorf("pick %d: typing %q %q should open link %d (%s, %s) but nothing was opened\nrendering:\n%s", pi, p.Keys, rune(p.End), p.K, vgen.Label(id), targets[id], plainOf(rendered))}
 		}
 		got := recs[start+expected-1].Argv
+		if len(got) == 2 && asShown[id] {
+			// an address followed by punctuation: what is opened is what is shown before the number
+			if shown, whole := shownBefore(rendered, p.K, targets[id]); strings.HasPrefix(got[1], targets[id]) && (!whole || got[1] == shown) {
+				continue
+			}
+		}
 		if len(got) != 2 || !opensTarget(got[1], targets[id], itemURL) {
 			return vrep.Result{Classes: classes, Err: fmt.Errorf("pick %d: typing %q %q should open link %d (%s, %s) but the hook was run as %q\nrendering:\n%s", pi, p.Keys, rune(p.End), p.K, vgen.Label(id), targets[id], got, plainOf(rendered))}
 		}
